@@ -110,6 +110,16 @@ PROPS = {
              "checks": {"quick": 4000, "thorough": 200000}, "shards": {"quick": 8, "thorough": 12}},
         ],
     },
+    "C07": {
+        "level": "exploration", "sim": True,
+        "technique": "property-based testing: bounded-exhaustive small rollouts + rapid random ones; oracle = per-sync monitor over ControllerRevisions, request log and hook log",
+        "level_text": "rollouts are generated and run sync by sync against the simulator; each sync is judged against an independent gate/ordering predicate",
+        "rule": "work in progress: currently hand-written regression cases",
+        "jobs": [
+            {"name": "c07-regress", "pkg": COMPOSITE, "tests": ["TestVerifC07Regressions"]},
+        ],
+        "disabled": "generated check for C07 not built yet; only regression cases exist",
+    },
     "C08": {
         "level": "exploration", "sim": True,
         "technique": "property-based testing (rapid): generated rollouts under a fair environment; oracle = bounded-liveness (completion within 3n+6 syncs, Updated=True, one revision left) and an independent health predicate for every RolloutWaiting",
